@@ -1588,6 +1588,7 @@ void Interpreter::handle_import_statement(const ASTNode *node) {
                         var.type = stmt->type_info;
                         var.is_const = true;
                         var.value = typed_val.value;
+                        var.is_assigned = true; // a constant is initialised here
                         if (stmt->type_info == TYPE_FLOAT ||
                             stmt->type_info == TYPE_DOUBLE ||
                             stmt->type_info == TYPE_QUAD) {
@@ -1612,6 +1613,7 @@ void Interpreter::handle_import_statement(const ASTNode *node) {
                             expression_evaluator_->evaluate_typed_expression(
                                 stmt->init_expr.get());
                         var.value = typed_val.value;
+                        var.is_assigned = true;
                         if (stmt->type_info == TYPE_FLOAT ||
                             stmt->type_info == TYPE_DOUBLE ||
                             stmt->type_info == TYPE_QUAD) {
